@@ -4,6 +4,7 @@ import (
 	"context"
 	"database/sql"
 	"errors"
+	"time"
 
 	command "github.com/rqlite/rqlite/v10/command/proto"
 )
@@ -37,10 +38,11 @@ const (
 	vCommit          // explicit COMMIT
 	vRollback        // explicit ROLLBACK
 	vRetStep         // INSERT of the existing key ... RETURNING id with ForceQuery: query path, fails at step
+	vSlow            // a read that runs (far) longer than the request's DbTimeout: ends when the context ends
 	vNumClasses
 )
 
-var verifClassName = []string{"ok", "prep", "step", "read", "empty", "ret", "readprep", "begin", "commit", "rollback", "retstep"}
+var verifClassName = []string{"ok", "prep", "step", "read", "empty", "ret", "readprep", "begin", "commit", "rollback", "retstep", "slow"}
 
 const (
 	verifSQLPrep     = "INSERT INTO nonexistent(id) VALUES(5)"
@@ -51,16 +53,20 @@ const (
 	verifSQLBegin    = "BEGIN"
 	verifSQLCommit   = "COMMIT"
 	verifSQLRollback = "ROLLBACK"
+	verifSQLSlow     = "WITH RECURSIVE c(x) AS (SELECT 1 UNION ALL SELECT x+1 FROM c WHERE x < 100000000000) SELECT count(*) FROM c"
 
 	verifMsgNoTable    = "no such table: nonexistent"
 	verifMsgUnique     = "UNIQUE constraint failed: foo.id"
 	verifMsgBeginInTx  = "cannot start a transaction within a transaction"
 	verifMsgCommitNoTx = "cannot commit - no transaction is active"
 	verifMsgRbNoTx     = "cannot rollback - no transaction is active"
+	verifMsgAnyTimeout = "*" // oracle only: some non-empty error text
 
 	verifBaseRow    = int64(1)  // committed before the request
 	verifPendingRow = int64(50) // inserted by the earlier, still open transaction (preTx)
 	verifMaxStmts   = 8
+
+	verifDbTimeout = int64(750 * time.Millisecond) // Request.DbTimeout of the timeout band
 )
 
 func verifRowID(pos int) int64 { return int64(100 + pos) }
@@ -94,6 +100,8 @@ func verifSQLOf(class, pos int) string {
 		return verifSQLCommit
 	case vRollback:
 		return verifSQLRollback
+	case vSlow:
+		return verifSQLSlow
 	}
 	return ""
 }
@@ -120,6 +128,8 @@ func verifClassify(q string) (int, int64) {
 		return vCommit, 0
 	case verifSQLRollback:
 		return vRollback, 0
+	case verifSQLSlow:
+		return vSlow, 0
 	}
 	for p := 0; p < verifMaxStmts; p++ {
 		if q == verifOKSQL(p) {
@@ -220,11 +230,36 @@ func (r verifRes) RowsAffected() (int64, error) { return r.n, nil }
 var verifTheConn *sql.Conn
 var verifTheTx *sql.Tx
 var verifTxDone bool
+var verifTxCtx context.Context // the context BeginTx was given
+var verifSlowWorld bool        // timeout band: acquiring the connection takes (model) time
+
+// Contexts. A call that is handed a context which has already ended returns the context's error
+// at once and does not touch the connection; calls given another, live context work. A slow
+// statement runs until its context ends (SQLite is interrupted): the call returns the context's
+// error, the statement has no effect and an open explicit transaction stays open.
+func verifSlowRun(ctx context.Context) error {
+	done := ctx.Done()
+	if done == nil {
+		panic("verif C13: slow statement under a context that never ends")
+	}
+	<-done
+	return ctx.Err()
+}
+
+// database/sql ends a sql.Tx with a rollback once the context given to BeginTx has ended; from
+// then on the Tx answers ErrTxDone.
+func verifTxAwaitDone() {
+	if verifTheTx != nil && !verifTxDone && verifTxCtx != nil && verifTxCtx.Err() != nil {
+		verifTxDone = true
+		verifL.step(vRollback, 0)
+	}
+}
 
 type verifRowsM struct {
 	rs      *sql.Rows
 	class   int
 	id      int64
+	ctx     context.Context
 	stepped bool
 	vals    []int64
 	pos     int
@@ -235,15 +270,27 @@ type verifRowsM struct {
 var verifRows *verifRowsM
 
 func verifDBConn(d *sql.DB, ctx context.Context) (*sql.Conn, error) {
+	if err := ctx.Err(); err != nil {
+		return nil, err
+	}
+	if verifSlowWorld {
+		time.Sleep(time.Microsecond)
+	}
 	verifTheConn = &sql.Conn{}
 	return verifTheConn, nil
 }
 func verifConnClose(c *sql.Conn) error { return nil }
 
-func verifLiteExec(q string) (sql.Result, error) {
+func verifLiteExec(ctx context.Context, q string) (sql.Result, error) {
+	if err := ctx.Err(); err != nil {
+		return nil, err
+	}
 	class, id := verifClassify(q)
 	if err := verifL.prepare(class); err != nil {
 		return nil, err
+	}
+	if class == vSlow {
+		return nil, verifSlowRun(ctx)
 	}
 	if err := verifL.step(class, id); err != nil {
 		return nil, err
@@ -254,12 +301,18 @@ func verifLiteExec(q string) (sql.Result, error) {
 	return verifRes{verifL.lastID, 1}, nil
 }
 
-func verifLiteQuery(q string) (*sql.Rows, error) {
+func verifLiteQuery(ctx context.Context, q string) (*sql.Rows, error) {
+	if err := ctx.Err(); err != nil {
+		return nil, err
+	}
 	class, id := verifClassify(q)
 	if err := verifL.prepare(class); err != nil {
 		return nil, err
 	}
-	m := &verifRowsM{rs: &sql.Rows{}, class: class, id: id}
+	m := &verifRowsM{rs: &sql.Rows{}, class: class, id: id, ctx: ctx}
+	if class == vSlow {
+		m.cols = []string{"count(*)"}
+	}
 	if class == vRead || class == vRet || class == vRetStep {
 		m.cols = []string{"id"}
 	}
@@ -268,18 +321,22 @@ func verifLiteQuery(q string) (*sql.Rows, error) {
 }
 
 func verifConnBeginTx(c *sql.Conn, ctx context.Context, opts *sql.TxOptions) (*sql.Tx, error) {
+	if err := ctx.Err(); err != nil {
+		return nil, err
+	}
 	if err := verifL.step(vBegin, 0); err != nil {
 		return nil, err
 	}
 	verifTheTx = &sql.Tx{}
 	verifTxDone = false
+	verifTxCtx = ctx
 	return verifTheTx, nil
 }
 func verifConnExec(c *sql.Conn, ctx context.Context, q string, args ...any) (sql.Result, error) {
-	return verifLiteExec(q)
+	return verifLiteExec(ctx, q)
 }
 func verifConnQuery(c *sql.Conn, ctx context.Context, q string, args ...any) (*sql.Rows, error) {
-	return verifLiteQuery(q)
+	return verifLiteQuery(ctx, q)
 }
 
 // like the real methods, the models dereference their receiver
@@ -291,20 +348,23 @@ func verifTxCheck(t *sql.Tx) {
 
 func verifTxExec(t *sql.Tx, ctx context.Context, q string, args ...any) (sql.Result, error) {
 	verifTxCheck(t)
+	verifTxAwaitDone()
 	if verifTxDone {
 		return nil, sql.ErrTxDone
 	}
-	return verifLiteExec(q)
+	return verifLiteExec(ctx, q)
 }
 func verifTxQuery(t *sql.Tx, ctx context.Context, q string, args ...any) (*sql.Rows, error) {
 	verifTxCheck(t)
+	verifTxAwaitDone()
 	if verifTxDone {
 		return nil, sql.ErrTxDone
 	}
-	return verifLiteQuery(q)
+	return verifLiteQuery(ctx, q)
 }
 func verifTxCommit(t *sql.Tx) error {
 	verifTxCheck(t)
+	verifTxAwaitDone()
 	if verifTxDone {
 		return sql.ErrTxDone
 	}
@@ -313,6 +373,7 @@ func verifTxCommit(t *sql.Tx) error {
 }
 func verifTxRollback(t *sql.Tx) error {
 	verifTxCheck(t)
+	verifTxAwaitDone()
 	if verifTxDone {
 		return sql.ErrTxDone
 	}
@@ -341,7 +402,9 @@ func verifRowsNext(rs *sql.Rows) bool {
 	if !m.stepped {
 		// SQLite runs the statement when the cursor is first advanced
 		m.stepped = true
-		if m.class == vRead {
+		if m.class == vSlow {
+			m.err = verifSlowRun(m.ctx)
+		} else if m.class == vRead {
 			m.vals = verifL.visible()
 		} else if err := verifL.step(m.class, m.id); err != nil {
 			m.err = err
@@ -373,7 +436,7 @@ func verifStmtReadOnly(d *DB, q string, conn *sql.Conn) (bool, error) {
 	if err := verifL.prepare(class); err != nil {
 		return false, err
 	}
-	return class == vRead || class == vBegin || class == vCommit || class == vRollback || class == vEmpty, nil
+	return class == vRead || class == vSlow || class == vBegin || class == vCommit || class == vRollback || class == vEmpty, nil
 }
 
 // ---------------------------------------------------------------------------------------------
@@ -395,6 +458,7 @@ func verifC13Open(preTx bool) *DB {
 	}
 	verifRows = nil
 	verifTheTx = nil
+	verifTxCtx = nil
 	return &DB{rwDB: &sql.DB{}, roDB: &sql.DB{}}
 }
 
@@ -418,6 +482,8 @@ type verifShape struct {
 	unified bool
 	tx, roe bool
 	preTx   bool
+	timeout bool // the request carries DbTimeout (timeout band)
+	slowFQ  bool // the slow statement is sent with ForceQuery
 	kinds   []int
 }
 
@@ -489,6 +555,10 @@ func verifSpec(s verifShape, variantPrep, variantNoROE bool) verifExp {
 			fail = verifMsgNoTable
 		case vStep, vRetStep:
 			fail = verifMsgUnique
+		case vSlow:
+			// the request's deadline passes while this statement runs: it fails, has no effect of
+			// its own and does not end an open explicit transaction
+			fail = verifMsgAnyTimeout
 		case vRead:
 			if s.unified {
 				r.kind = kQ
@@ -660,7 +730,11 @@ func verifCompare(s verifShape, o verifObs, e verifExp, direct bool) string {
 		if kind != x.kind {
 			return "result-reports-own-outcome"
 		}
-		if x.kind == kErr && msg != x.msg {
+		if x.kind == kErr && x.msg == verifMsgAnyTimeout {
+			if msg == "" {
+				return "result-error-text-is-the-statements"
+			}
+		} else if x.kind == kErr && msg != x.msg {
 			return "result-error-text-is-the-statements"
 		}
 		if x.kind == kE && x.checkID && (lastID != x.id || affected != 1) {
@@ -765,13 +839,17 @@ func verifC13Shape(unified bool) verifShape {
 
 func verifC13Request(s verifShape) *command.Request {
 	req := &command.Request{Transaction: s.tx, RollbackOnError: s.roe}
+	if s.timeout {
+		req.DbTimeout = verifDbTimeout
+	}
 	for pos, c := range s.kinds {
-		req.Statements = append(req.Statements, &command.Statement{Sql: verifSQLOf(c, pos), ForceQuery: c == vRet || c == vRetStep || c == vReadPrep})
+		req.Statements = append(req.Statements, &command.Statement{Sql: verifSQLOf(c, pos), ForceQuery: c == vRet || c == vRetStep || c == vReadPrep || (c == vSlow && s.slowFQ)})
 	}
 	return req
 }
 
 func verifC13Do(s verifShape) verifObs {
+	verifSlowWorld = s.timeout
 	d := verifC13Open(s.preTx)
 	defer verifC13Close(d)
 	req := verifC13Request(s)
@@ -785,9 +863,47 @@ func verifC13Do(s verifShape) verifObs {
 	return o
 }
 
-func verifC13Check(unified bool) {
+func verifC13Check(unified bool) { verifC13CheckShape(verifC13Shape(unified)) }
+
+var verifTimeoutClasses = []int{vOK, vStep, vRead}
+
+// verifC13TimeoutShape: the request carries DbTimeout and its deadline passes during statement k
+// (a read that runs far longer than the timeout), k symbolic: [BEGIN] + n statements, the k-th is
+// the slow one, the others are drawn from {ok, step-fail, read}; Transaction on/off x
+// RollbackOnError on/off x with/without an explicit BEGIN (Transaction=false only), both paths,
+// the slow statement with and without ForceQuery on the execute path. Without Transaction and
+// without RollbackOnError the request carries on after the failure with a context that has
+// ended, which the property does not speak about: there the slow statement is the last one.
+func verifC13TimeoutShape() verifShape {
+	s := verifShape{timeout: true}
+	s.unified = verifChoice("unified", 2) == 1
+	s.tx = verifChoice("transaction", 2) == 1
+	s.roe = verifChoice("rollbackOnError", 2) == 1
+	if !s.tx && verifChoice("explicitBegin", 2) == 1 {
+		s.kinds = append(s.kinds, vBegin)
+	}
+	if !s.unified {
+		s.slowFQ = verifChoice("slowForceQuery", 2) == 1
+	}
+	maxN := 3
+	if verifTier() == 1 {
+		maxN = 4
+	}
+	n := 1 + verifChoice("n", maxN)
+	k := verifChoice("slowAt", n)
+	verifAssume(s.tx || s.roe || k == n-1)
+	for i := 0; i < n; i++ {
+		if i == k {
+			s.kinds = append(s.kinds, vSlow)
+			continue
+		}
+		s.kinds = append(s.kinds, verifTimeoutClasses[verifChoice(verifName("class", i), len(verifTimeoutClasses))])
+	}
+	return s
+}
+
+func verifC13CheckShape(s verifShape) {
 	verifPanicsAreViolations()
-	s := verifC13Shape(unified)
 	o := verifC13Do(s)
 	e := verifSpec(s, false, false)
 	mis := verifCompare(s, o, e, true)
@@ -838,6 +954,23 @@ func verifC13Check(unified bool) {
 	if e.inTx && len(e.pending) > 0 {
 		verifReach("explicit-transaction-left-open")
 	}
+	if s.timeout && e.firstFail == vSlow {
+		wrote := false
+		for _, r := range e.res {
+			if r.kind == kE && r.checkID {
+				wrote = true
+			}
+		}
+		if s.tx && wrote && e.stopped {
+			verifReach("timeout-tx-undone-and-stopped")
+		}
+		if !s.tx && s.roe && wrote && e.stopped && s.kinds[0] == vBegin && len(e.committed) == 1 {
+			verifReach("timeout-roe-explicit-transaction-rolled-back")
+		}
+		if !s.tx && !s.roe && wrote && e.inTx {
+			verifReach("timeout-explicit-transaction-stays-open")
+		}
+	}
 	for _, r := range e.res {
 		if r.kind == kQ && len(r.vals) > 1 {
 			verifReach("read-returns-rows")
@@ -856,6 +989,9 @@ func VerifC13Execute() { verifC13Check(false) }
 
 // VerifC13Request: (*DB).Request, the unified path (RequestWithContext / queryStmtWithConn).
 func VerifC13Request() { verifC13Check(true) }
+
+// VerifC13Timeout: both paths, the request's deadline passes during a symbolic statement.
+func VerifC13Timeout() { verifC13CheckShape(verifC13TimeoutShape()) }
 
 // Twin: same machinery, claims that a request never commits anything. Must be violated.
 func VerifC13Twin() {
